@@ -158,7 +158,7 @@ func checkC12(c *Ctx) {
 		if f == nil {
 			continue
 		}
-		base := f.Params[1].Name()
+		base := pname(f.Params[1])
 		isClear := func(in ssa.Instruction) bool {
 			st, ok := in.(*ssa.Store)
 			if !ok || !isRespField(st.Addr, base) {
@@ -184,7 +184,7 @@ func checkC12(c *Ctx) {
 	// ---- C12.2
 	r.Rule("C12.2", "forwarded wrapper is fresh; signature fields only from Marshal/Sign under `authenticated`; input signature fields never read", 5)
 	if f := c.fn("C12.2", rp, "RegProcessor", "processC2SWrapper"); f != nil {
-		in0 := f.Params[1].Name()
+		in0 := pname(f.Params[1])
 		// the marshalled (returned) object
 		var final *ssa.Call
 		for _, call := range callsIn(f, nameIs("google.golang.org/protobuf/proto.Marshal")) {
@@ -270,7 +270,7 @@ func checkC12(c *Ctx) {
 	// ---- C12.3 one object
 	r.Rule("C12.3", "the response returned to the client is the object attached to the forwarded wrapper", 3)
 	if f := c.fn("C12.3", rp, "RegProcessor", "processBdReq"); f != nil {
-		base := f.Params[1].Name()
+		base := pname(f.Params[1])
 		cellStore := func(in ssa.Instruction) (ssa.Value, bool) {
 			if st, ok := in.(*ssa.Store); ok && isRespField(st.Addr, base) {
 				return stripConv(st.Val), true
@@ -411,7 +411,9 @@ func checkC12(c *Ctx) {
 			}
 			if o, fld, ok := fieldOwner(st.Addr); ok && o == "proto.ClientToStation" && fld == "TransportParams" {
 				n++
-				g := guardedM(f, in, func(cnd string, pol bool) bool { return !pol && strings.HasSuffix(cnd, ".GetDisableRegistrarOverrides()") })
+				g := guardedM(f, in, func(cnd string, pol bool) bool {
+					return !pol && strings.HasSuffix(cnd, ".GetDisableRegistrarOverrides()")
+				})
 				src := pathOf(st.Val)
 				r.Check(g && strings.Contains(src, "GetRegistrationResponse().GetTransportParams()"), "C12.4", "station: TransportParams <- response params only under !GetDisableRegistrarOverrides()", in.Pos(), fnName(f), src,
 					"the station applies the registrar's parameter override without checking the client's disable flag (or from another source): station and client disagree on the transport parameters")
